@@ -104,6 +104,17 @@ sc('scan_flow_scalar_spaces', props=['C03', 'C20'], params={'double': 'bool'}, r
                    "forall(j, 0, length, S(self)[self.index + j] in ' \\t')"]},
    variants={0: "len(S(self)) - self.index - length"}, modifies=MODF)
 
+# ---- a node tag: !<uri>, !, !suffix, !handle!suffix
+sc('scan_tag', props=['C03', 'C09', 'C20'], requires=[NOT_AT_END], result='obj:yaml.tokens.TagToken',
+   ensures=["self.index > old(self.index)", "typeis(result.value, 'tuple') and len(result.value) == 2",
+            "result.start_mark.index == old(self.index) and result.start_mark.index <= result.end_mark.index and result.end_mark.index == self.index",
+            "S(self)[self.index] in %s" % "'\\0 \\r\\n\\x85\\u2028\\u2029'"],
+   labels={0: 'moves-forward', 1: 'handle-suffix-pair', 2: 'marks-ordered-and-inside-what-was-consumed', 3: 'stops-before-space-or-break'},
+   invariants={0: [inv_reader, POS_SAME, "length >= 1 and self.index + length < len(S(self))", "ch == S(self)[self.index + length]",
+                   "forall(j, 0, length, S(self)[self.index + j] not in '\\0')", "typeis(use_handle, 'bool')",
+                   "exact(start_mark, 'yaml.error.Mark') and start_mark.index == self.index"]},
+   variants={0: "len(S(self)) - self.index - length"}, modifies=MODF)
+
 # ---- a whole directive line: the token a %YAML line produces carries the pair of numbers the parser unpacks (process_directives);
 #      C09: the marks are ordered and the token starts where the scanner stood
 sc('scan_directive', props=['C03', 'C09', 'C20'], requires=[NOT_AT_END], result='obj:yaml.tokens.DirectiveToken',
@@ -209,4 +220,23 @@ contract(SC + 'need_more_tokens', props=['C18', 'C20'], axioms=[pos_defs],
              # C18: with a token ready, more input is looked at only while some simple-key candidate is still pending
              "(result and len(self.tokens) > 0) ==> len(self.possible_simple_keys) > 0"],
     labels={0: 'inv_psk', 1: 'never-after-stream-end', 2: 'always-when-the-queue-is-empty', 3: 'otherwise-only-while-a-candidate-is-pending'},
+    modifies=['self.possible_simple_keys[]'], raises=[SERR])
+
+# ---- registering / dropping a simple-key candidate (C18: a candidate always points at the token about to be scanned, at the current
+#      position; C03: a required key that cannot be one is a ScannerError)
+contract(SC + 'remove_possible_simple_key', props=['C18', 'C03', 'C20'], axioms=[pos_defs],
+    requires=[inv_reader, "inv_psk(self)"],
+    ensures=["inv_psk(self)", "not haskey(self.possible_simple_keys, self.flow_level)",
+             "forall_v(k, haskey(self.possible_simple_keys, k) ==> (old(haskey(self.possible_simple_keys, k)) and dget(self.possible_simple_keys, k) is old(dget(self.possible_simple_keys, k))))",
+             "forall_v(k, (old(haskey(self.possible_simple_keys, k)) and k != self.flow_level) ==> haskey(self.possible_simple_keys, k))"],
+    labels={0: 'inv_psk', 1: 'no-candidate-at-this-level', 2: 'only-removes-candidates', 3: 'other-levels-keep-theirs'},
+    modifies=['self.possible_simple_keys[]'], raises=[SERR])
+contract(SC + 'save_possible_simple_key', props=['C18', 'C03', 'C20'], axioms=[pos_defs],
+    requires=[inv_reader, "inv_psk(self)", "typeis(self.tokens, 'list')"],
+    ensures=["inv_psk(self)",
+             "self.allow_simple_key ==> (haskey(self.possible_simple_keys, self.flow_level) and KEY(self, self.flow_level).token_number == self.tokens_taken + len(self.tokens) "
+             "and KEY(self, self.flow_level).index == self.index and KEY(self, self.flow_level).line == self.line and KEY(self, self.flow_level).column == self.column)",
+             "not self.allow_simple_key ==> forall_v(k, haskey(self.possible_simple_keys, k) == old(haskey(self.possible_simple_keys, k)))",
+             "self.index == old(self.index) and self.line == old(self.line)"],
+    labels={0: 'inv_psk', 1: 'candidate-points-at-the-next-token-and-the-current-position', 2: 'nothing-registered-when-keys-are-not-allowed', 3: 'position-unchanged'},
     modifies=['self.possible_simple_keys[]'], raises=[SERR])
